@@ -156,7 +156,31 @@ class AType(AbsObj):
         return (not self.is_array and self.name in NUM and
                 not other.is_array and other.name in NUM)
 
+    _EQ_MEMO = {}
+
+    def _key(self):
+        return (self.name, self.is_array, self.user, self.static,
+                self.nodim)
+
     def eq_(self, other):
+        if isinstance(other, AType) and AType.SIM is not None:
+            # decided by the current source of Type.__eq__ (memoised); the
+            # summary below is only the fallback
+            k = (id(AType.SIM), self._key(), other._key())
+            if k not in AType._EQ_MEMO:
+                v = None
+                try:
+                    from .absint import Interp
+                    it = Interp(AType.SIM)
+                    f = self.from_source('__eq__', it)
+                    r = it.call(f, [other], {})
+                    if r is True or r is False:
+                        v = r
+                except Exception:
+                    v = None
+                AType._EQ_MEMO[k] = v
+            if AType._EQ_MEMO[k] is not None:
+                return AType._EQ_MEMO[k]
         if isinstance(other, AType):
             if self.name == 'UNKNOWN' or other.name == 'UNKNOWN':
                 return False
@@ -171,6 +195,11 @@ class AType(AbsObj):
 
 
 class TypeNS(AbsObj):
+    def instancecheck_(self, x):
+        if is_unk(x):
+            return Unk('isinstance')
+        return isinstance(x, AType)
+
     def getattr_(self, a, interp):
         if a in BUILTIN_TYPES or a == 'UNKNOWN':
             return AType(a)
@@ -923,6 +952,16 @@ def check_marker_balance(ctx, pid):
                   'nested in emission order, absent with the flag off, and '
                   'each clause statement of IF/SELECT blocks is bracketed '
                   'exactly once')
+
+
+def check_restore_targets(ctx, pid):
+    from . import gendrive
+    gendrive.report(
+        ctx, pid, kinds={'restore-target-zero'},
+        rule_suffix='restore-line-zero-is-a-target',
+        rule_text='RESTORE with the line number 0 as its target compiles '
+                  'like RESTORE with any other line number, not like RESTORE '
+                  'without a target (relational run of gen_restore_stmt)')
 
 
 def check_comparison_types(ctx, pid):
